@@ -30,11 +30,14 @@ structure Cfg where
   /-- `SdSimulation.change_equation` only rebinds the lambda; the values memoised for the changed equation at
       earlier times stay (a seeded defect: it also empties that equation's memo, so its history is lost) -/
   changeEquationKeepsMemo : Bool := true
+  /-- a step's settings dictionary is applied key by key, every constant getting ITS value (a seeded defect: a
+      bulk method builds the lambdas in a loop with a late-binding closure — all get the LAST value of the dict) -/
+  settingsAppliedPerKey : Bool := true
 deriving DecidableEq, Repr
 
 def Cfg.good (c : Cfg) : Bool :=
   c.sessionDtFromScenario && c.stepClockNormalised && c.stepFinalisesAll && c.runResetsOnAnySettings &&
-    c.changeEquationKeepsMemo
+    c.changeEquationKeepsMemo && c.settingsAppliedPerKey
 
 /-- The abstract simulator: `val f e k` is the value of equation `e` at grid index `k` when the
 settings in force at grid index `i` are `f i`. -/
@@ -222,6 +225,12 @@ abbrev CSet (α : Type) := List (Nat × α)
 def applySet {α : Type} (body : Nat → C08.Expr α) (s : CSet α) : Nat → C08.Expr α :=
   s.foldl (fun b p => C08.updFn b p.1 (.lit p.2)) body
 
+/-- the late-binding variant: every name of the dictionary is rebound to the value listed LAST -/
+def applySetLast {α : Type} (body : Nat → C08.Expr α) (s : CSet α) : Nat → C08.Expr α :=
+  match s.getLast? with
+  | some last => s.foldl (fun b p => C08.updFn b p.1 (.lit last.2)) body
+  | none => body
+
 structure MSess (α : Type) where
   body : Nat → C08.Expr α        -- model.equations: the lambdas currently installed
   memo : C08.Memo α
@@ -234,9 +243,9 @@ def mbegin {α : Type} (body : Nat → C08.Expr α) : MSess α := { body := body
 def dropChanged {α : Type} (m : C08.Memo α) (s : CSet α) : C08.Memo α :=
   s.foldl (fun m p => C08.clearOwn m p.1) m
 
-def mstep {α : Type} (fs : FinSet) (keep : Bool) (nEq : Nat) (kind : Nat → C08.Kind) (ops : C08.Ops α) (fuel : Nat)
+def mstep {α : Type} (fs : FinSet) (keep perKey : Bool) (nEq : Nat) (kind : Nat → C08.Kind) (ops : C08.Ops α) (fuel : Nat)
     (eqs : List Nat) (st : MSess α) (s : CSet α) : Option (MSess α) :=
-  let body' := applySet st.body s
+  let body' := if perKey then applySet st.body s else applySetLast st.body s
   match evalList ops body' fuel st.k eqs (if keep then st.memo else dropChanged st.memo s) with
   | none => none
   | some (m1, row) =>
@@ -244,12 +253,12 @@ def mstep {α : Type} (fs : FinSet) (keep : Bool) (nEq : Nat) (kind : Nat → C0
       | none => none
       | some (m2, _) => some { body := body', memo := m2, k := st.k + 1, log := st.log ++ [row] }
 
-def msteps {α : Type} (fs : FinSet) (keep : Bool) (nEq : Nat) (kind : Nat → C08.Kind) (ops : C08.Ops α) (fuel : Nat)
+def msteps {α : Type} (fs : FinSet) (keep perKey : Bool) (nEq : Nat) (kind : Nat → C08.Kind) (ops : C08.Ops α) (fuel : Nat)
     (eqs : List Nat) : List (CSet α) → MSess α → Option (MSess α)
   | [], st => some st
   | s :: ss, st =>
-      match mstep fs keep nEq kind ops fuel eqs st s with
-      | some st1 => msteps fs keep nEq kind ops fuel eqs ss st1
+      match mstep fs keep perKey nEq kind ops fuel eqs st s with
+      | some st1 => msteps fs keep perKey nEq kind ops fuel eqs ss st1
       | none => none
 
 /-- the definitions in force at grid index `i` when the single steps carried the settings `ss` -/
